@@ -615,7 +615,49 @@ var mutatedProp = h.Define(P, "mutated", func(t *rapid.T) Case {
 func TestMutated(t *testing.T) { mutatedProp.Check(t) }
 
 var nodeProp = h.Define(P, "node", func(t *rapid.T) Case {
-	switch rapid.IntRange(0, 4).Draw(t, "nmode") {
+	switch rapid.IntRange(0, 5).Draw(t, "nmode") {
+	case 5:
+		// == against a list / map literal of ordinary values, on data of the SAME shape in which one leaf is
+		// hostile (the comparison has to walk into the value to meet it)
+		shape := val.Gen(t, val.Cfg{Depth: 3, MaxLen: 4, SafeInts: true, NoFloat: rapid.Bool().Draw(t, "eq_nofloat"), Keys: []string{"a", "b", "c"}})
+		if shape.K != "list" && shape.K != "map" {
+			shape = val.List(val.Int(0), shape, val.Int(100))
+		}
+		var graft func(v val.V, budget *int) val.V
+		graft = func(v val.V, budget *int) val.V {
+			switch v.K {
+			case "list":
+				out := val.V{K: "list"}
+				for _, e := range v.L {
+					out.L = append(out.L, graft(e, budget))
+				}
+				return out
+			case "map":
+				out := val.V{K: "map"}
+				for _, e := range v.M {
+					out.M = append(out.M, val.KV{K: e.K, V: graft(e.V, budget)})
+				}
+				return out
+			}
+			*budget--
+			if *budget == 0 {
+				return hostileLeaf(t, "eqleaf")
+			}
+			return v
+		}
+		nleaves := rapid.IntRange(1, 6).Draw(t, "eq_which")
+		data := graft(shape, &nleaves)
+		lit := shape
+		st := pol.Stmt{Op: rapid.SampledFrom([]string{"==", "==", "<", ">="}).Draw(t, "eq_op"), Sel: sel.Sel{{Kind: "field", Name: "v"}}, Lit: &lit}
+		if rapid.IntRange(0, 3).Draw(t, "eq_not") == 0 {
+			st = pol.Stmt{Op: "not", Sub: []pol.Stmt{st}}
+		}
+		root := val.Map(val.E("v", data), val.E("l", val.List(data, shape)))
+		p := pol.Policy{st}
+		if rapid.Bool().Draw(t, "eq_any") {
+			p = append(p, pol.Stmt{Op: "any", Sel: sel.Sel{{Kind: "field", Name: "l"}}, Sub: []pol.Stmt{{Op: "==", Sel: sel.Sel{{Kind: "id"}}, Lit: &lit}}})
+		}
+		return Case{Target: "Policy.Match+PartialMatch", Fam: "node-eq-shape", Node: &root, Pol: p}
 	case 4: // like: pattern and subject built from the same few pieces (overlaps, short subjects, '*' and '\\' on both sides)
 		piece := rapid.SampledFrom([]string{"a", "b", "ab", "ba", "aba", "/", "/x", "*", "\\", "é", "", "aa"})
 		var pat, sub string
